@@ -1,4 +1,4 @@
 From TLXV Require Import C13.DAry C13.Addr C13.Radix.
 Require Extraction. Require ExtrOcamlBasic.
 Extraction Language OCaml.
-Extraction "../ocaml/gen/C13_model.ml" DAry.trun DAry.tstep DAry.tobs Addr.arun Addr.astep Addr.aobs Addr.ainit Radix.rrun Radix.rinit Radix.num_buckets.
+Extraction "../ocaml/gen/C13_model.ml" DAry.trun DAry.tstep DAry.tobs Addr.arun Addr.astep Addr.aobs Addr.ainit Radix.rrun Radix.rstep Radix.rinit Radix.num_buckets.
